@@ -83,6 +83,15 @@ class DocGen:
             if it[0] == 'specials' and out and out[-1][0] == 'specials':
                 it = self.text()            # adjacent specials could fuse into a longer one ('--' '-')
             out.append(it)
+            if it[0] == 'macro' and forbid == '' and it[2] and it[2][-1] is None and r.random() < 0.6:
+                # an optional argument that must follow WITHOUT whitespace (the line-break macro): after whitespace
+                # the same characters are ordinary text
+                sp = self.sig.macro_sig(it[1])
+                if sp and sp['args'][0] == 'std' and sp['args'][1]:
+                    k = sp['args'][1][-1]['kind']
+                    if k[0] == 'group' and k[3] and not k[4]:
+                        out.append(('space',))
+                        out.append(('text', k[1] + r.choice(['x', '1pt', 'ab']) + k[2]))
         return out
 
     def item(self, depth, math, forbid):
